@@ -331,6 +331,15 @@ def s_fv(rng, n):
                 b = dict(num=g_number(rng, ["int", "short", "dyadic", "float"]))
             elif q < 0.55:
                 b = copy.deepcopy(a)
+            elif q < 0.7:  # one part changed: the same numerator over another denominator, another number, ...
+                b = copy.deepcopy(a)
+                w = rng.random()
+                if w < 0.4:
+                    b["x"] = [a["x"][0], a["x"][1] + rng.randint(1, 5)]
+                elif w < 0.7:
+                    b["x"] = [a["x"][0] + rng.choice((1, -1)), a["x"][1]]
+                else:
+                    b["n"] = g_number(rng, ["int", "dyadic"])
             else:
                 b = g_fv(rng)
             yield c_fv_cmp(rng.choice(OPS_CMP), a, b)
@@ -470,6 +479,8 @@ def s_fs_misc(ctx, rng, n):
                 b["cat"] = rng.choice(ctx.cats[ctx.qtype_of_cat[a["cat"]]])
             elif q < 0.8:
                 b["v"] = g_fv(rng)
+            elif q < 0.9:
+                b["v"]["x"] = [a["v"]["x"][0], a["v"]["x"][1] + rng.randint(1, 5)]
             yield c_fs("fs_eq", a=a, b=b)
         elif r < 0.8:
             cat = rng.choice(LIM_CATS)
@@ -1056,6 +1067,15 @@ def _oracle(c, ctx):
                 cp = copy.copy(fv)
                 if not (cp == fv) or cp is fv or float(cp) != float(fv):
                     return dict(clause="copy preserves the amount", fv=_show_val(v), got=str(cp))
+            if op == "fv_cmp" and c["f"] in ("eq", "ne") and "x" in t["b"]:
+                b = t["b"]
+                wb = _fv_q(b)
+                fb = _fv(b)
+                if (fv == fb) and abs(want - wb) > Q(1, 10 ** 9) * max(abs(want), abs(wb), abs(exact(_obj(v["n"])))):
+                    return dict(clause="FractionValues that compare equal denote the same amount", a=_show_val(v), b=_show_val(b),
+                                float_a=float(fv), float_b=float(fb))
+                if (fv != fb) == (fv == fb):
+                    return dict(clause="!= is the negation of ==", a=_show_val(v), b=_show_val(b))
             if op == "fv_cmp" and c["f"] in OPS_ORD:
                 b = t["b"]
                 wb = _fv_q(b) if "x" in b else exact(_obj(b["num"]))
@@ -1139,6 +1159,15 @@ def _oracle(c, ctx):
             got, want = _pyop(c["f"], fa, fb), _pyop(c["f"], sa, sb)
             return None if bool(got) == bool(want) else dict(clause="FractionScalars compare like Scalars holding float(value)", f=c["f"], a=_show_val(a),
                                                              b=_show_val(b), got=bool(got), want=bool(want))
+        if op == "fs_eq":
+            a, b = t["a"], t["b"]
+            qa, qb = ObtainQuantity(a["unit"], a["cat"]), ObtainQuantity(b["unit"], b["cat"])
+            fa, fb = FractionScalar.CreateWithQuantity(qa, _fv(a["v"])), FractionScalar.CreateWithQuantity(qb, _fv(b["v"]))
+            if fa == fb:
+                wa, wb = _fv_q(a["v"]), _fv_q(b["v"])
+                if a["unit"] != b["unit"] or abs(wa - wb) > Q(1, 10 ** 9) * max(abs(wa), abs(wb), abs(exact(_obj(a["v"]["n"])))):
+                    return dict(clause="FractionScalars that compare equal denote the same amount in the same unit", a=_show_val(a), b=_show_val(b))
+            return None
         if op == "fs_valid":
             a = t["a"]
             q = ObtainQuantity(a["unit"], a["cat"])
